@@ -104,6 +104,61 @@ func (e *extractor) valOf(v interface{}) hx.Sexp {
 	return hx.A("null")
 }
 
+// valOfT abstracts an application value stored at a position of type t: the Go value of an enum
+// value becomes `(enum NAME)` for the entry that has that value (whatever the Go value is: a
+// struct, the name itself, the name of another entry).
+func (e *extractor) valOfT(v interface{}, t schema.Type) hx.Sexp {
+	if v == nil || v == schema.Null || t == nil {
+		return e.valOf(v)
+	}
+	switch tt := schema.NullableType(t).(type) {
+	case *schema.ListType:
+		if xs, ok := v.([]interface{}); ok {
+			out := []hx.Sexp{}
+			for _, x := range xs {
+				out = append(out, e.valOfT(x, tt.Type))
+			}
+			return hx.N("list", out...)
+		}
+	case *schema.EnumType:
+		names := []string{}
+		for name := range tt.Values {
+			names = append(names, name)
+		}
+		sort.Strings(names)
+		for _, name := range names {
+			if reflect.DeepEqual(tt.Values[name].Value, v) {
+				return hx.N("enum", hx.A(name))
+			}
+		}
+	case *schema.InputObjectType:
+		var m map[string]interface{}
+		switch x := v.(type) {
+		case map[string]interface{}:
+			m = x
+		case wrapped:
+			m = x.M
+		}
+		if m != nil {
+			keys := []string{}
+			for k := range m {
+				keys = append(keys, k)
+			}
+			sort.Strings(keys)
+			xs := []hx.Sexp{}
+			for _, k := range keys {
+				var ft schema.Type
+				if f, ok := tt.Fields[k]; ok && f != nil {
+					ft = f.Type
+				}
+				xs = append(xs, hx.L(hx.A(k), e.valOfT(m[k], ft)))
+			}
+			return hx.N("obj", xs...)
+		}
+	}
+	return e.valOf(v)
+}
+
 func (e *extractor) objOf(m map[string]interface{}) hx.Sexp {
 	keys := []string{}
 	for k := range m {
@@ -235,7 +290,7 @@ func (e *extractor) inputValues(tag string, m map[string]*schema.InputValueDefin
 		iv := m[k]
 		def := hx.N("default", hx.A("none"))
 		if iv.DefaultValue != nil {
-			def = hx.N("default", e.valOf(iv.DefaultValue))
+			def = hx.N("default", e.valOfT(iv.DefaultValue, iv.Type))
 		}
 		xs = append(xs, hx.N("iv", hx.A(k), hx.A(iv.Description), hx.N("self", e.ids.id(iv)), e.typ(iv.Type), def, e.applied(iv.Directives)))
 	}
